@@ -59,11 +59,22 @@ type ltrace struct {
 	Ops  []Op `json:"ops"`
 }
 
+// key 0 is the all-zero key (the governance parameters live under it in the application)
 func key(i int) ledger.LedgerKey {
 	var k ledger.LedgerKey
+	if i == 0 {
+		return k
+	}
 	k[0] = byte(i + 1)
 	k[31] = byte(0xA0 + i)
 	return k
+}
+
+func keyIndex(k ledger.LedgerKey) int {
+	if k[0] == 0 {
+		return 0
+	}
+	return int(k[0]) - 1
 }
 
 type ov struct {
@@ -345,7 +356,7 @@ func (r *runner) apply(op Op) (err error) {
 	case "iter":
 		got := map[int]uint64{}
 		xerr := r.L.IterateReadAllFinalityItems(func(it *item) xerrors.XError {
-			got[int(it.K[0])-1] = it.V
+			got[keyIndex(it.K)] = it.V
 			return nil
 		})
 		if xerr != nil {
@@ -414,7 +425,7 @@ func (r *runner) apply(op Op) (err error) {
 		r.expectGet(fmt.Sprintf("ImmutableLedgerAt(%d).Get", v), k, got, x2, want, ok)
 		all := map[int]uint64{}
 		_ = il.IterateReadAllItems(func(it *item) xerrors.XError {
-			all[int(it.K[0])-1] = it.V
+			all[keyIndex(it.K)] = it.V
 			return nil
 		})
 		if !sameMap(all, m.vers[v]) {
